@@ -3,6 +3,7 @@ C13 — property theorems: REPP rewriting equals ordered regex substitution with
 Only property statements live here; proofs are references to Lemmas.lean.
 The regex engine is a parameter (`eng`); no hypothesis on it is needed for the string clauses.
 -/
+import Verif.Generated.TablesC13
 import Verif.C13.Lemmas
 import Verif.C13.LoaderLemmas
 import Verif.C13.LoaderRoundtrip
@@ -237,5 +238,52 @@ example : (applyRule "a".toList [⟨0, 1, [none]⟩] [.grp 1] []).out = [] := by
 example : parseTemplate [] "a\\101b".toList = .ok [.lit ['a'], .lit ['A'], .lit ['b']] := by rfl
 example : parseTemplate [] "\\0".toList = .ok [.lit [Char.ofNat 0]] := by rfl
 example : parseTemplate [] "\\1\\t".toList = .ok [.grp 1, .lit ['\t']] := by rfl
+
+/-- Pins: the constants of the anchored code that the models of C13 hand-code, read from the live
+module on every run (harness/c13.py `tables()`: compiled pattern texts and flags, dictionaries, and the
+string/number/bool constants of the code objects; docstrings, log formats and message texts left out).
+A change to any of them stops this theorem, which the check reports as a broken proof obligation.
+* `c13ReplacementsRe`, `c13AsciiEscapes`, `c13ParseTemplateConsts` (octal base 8, `& 255`, group names)
+  — `matchEsc`, `asciiEscape`, `octNum`, `parseAux` (Model.lean);
+* `c13GetSegmentsConsts` — `lastTrackable` (first expected group is 1);
+* `c13ZeromapConsts` (`len(s) + 2` zeros), `c13RuleApplyConsts`, `c13InsertPartConsts` (`width - 1`,
+  step -1), `c13ProcessMatchConsts` (`gstart == -1`, start delta 0), `c13TraceConsts` — `zeromap`,
+  `applyRule` (sentinels `0`, `shift`, `shift - 1`), `insertPart`, `procTracked`, `processMatch`;
+* `c13GroupApplyConsts`, `c13IterApplyConsts` — `groupApply`, `iterApply`;
+* `c13MaskConsts`, `c13MaskApplyConsts`, `c13CheckMaskConsts`, `c13MakeMaskInfoConsts`,
+  `c13GetMaskLenConsts` — `maskApply` (B = 1, I = 2), `checkMask`, `makeMaskInfo`, `maskLen` (Mask.lean);
+* `c13ParseModuleConsts` (the prefix characters `; ! < > = # : @`), `c13RewriteRuleConsts` (the
+  `([^\t]+)\t+(.*)` split), `c13GroupCallConsts` (`.rpp`), `c13InternalGroupConsts`,
+  `c13ReppLinesConsts` — `skipLine`, `parse`, `parseRule` (Loader.lean);
+* the `…Defaults` — `active=None`, `verbose=False`, `modules=None` … as the harness calls them. -/
+theorem c13_pins :
+    Verif.Tables.c13ReplacementsRe = "\\\\(?:(?P<oct>0[0-7]{,2}|[0-7]{3})|(?P<dec>[1-9][0-9]?)|g<(?P<grp>[^>]+)>|(?P<esc>[abfnrtv\\\\]))"
+    ∧ Verif.Tables.c13ReplacementsReFlags = 32
+    ∧ Verif.Tables.c13AsciiEscapes = [("a", 7), ("b", 8), ("f", 12), ("n", 10), ("r", 13), ("t", 9), ("v", 11), ("\\", 92)]
+    ∧ Verif.Tables.c13MaskConsts = [0, 1, 2]
+    ∧ Verif.Tables.c13ParseTemplateConsts = ["", "0", "dec", "grp", "oct", "8", "255", "esc"]
+    ∧ Verif.Tables.c13GetSegmentsConsts = ["0", "1"]
+    ∧ Verif.Tables.c13ZeromapConsts = ["i", "0", "2"]
+    ∧ Verif.Tables.c13InsertPartConsts = ["1", "-1"]
+    ∧ Verif.Tables.c13ProcessMatchConsts = ["i", "0", "False", "-1", "1", "True", "1", "", ""]
+    ∧ Verif.Tables.c13RuleApplyConsts = ["False", "0", "i", "True", "1", ""]
+    ∧ Verif.Tables.c13MaskApplyConsts = ["i", "1", "True"]
+    ∧ Verif.Tables.c13GroupApplyConsts = ["False"]
+    ∧ Verif.Tables.c13IterApplyConsts = ["0", "1"]
+    ∧ Verif.Tables.c13TraceConsts = ["1", "0", "-1"]
+    ∧ Verif.Tables.c13CheckMaskConsts = ["1", "0", "False", "True"]
+    ∧ Verif.Tables.c13MakeMaskInfoConsts = ["", "0", "-1", "1"]
+    ∧ Verif.Tables.c13GetMaskLenConsts = ["1"]
+    ∧ Verif.Tables.c13ParseModuleConsts = ["True", "0", ";", "", "1", "!", "<", ">", "=", "#", "-1", ":", "@"]
+    ∧ Verif.Tables.c13RewriteRuleConsts = ["([^\\t]+)\\t+(.*)", "1", "2"]
+    ∧ Verif.Tables.c13GroupCallConsts = ["(operations,name)", "(name,modules)", ".rpp"]
+    ∧ Verif.Tables.c13InternalGroupConsts = ["(operations,name)", "True", ""]
+    ∧ Verif.Tables.c13ReppLinesConsts = ["utf-8", "(encoding)"]
+    ∧ Verif.Tables.c13ApplyDefaults = ["None"]
+    ∧ Verif.Tables.c13TraceDefaults = ["None", "False"]
+    ∧ Verif.Tables.c13FromStringDefaults = ["None", "None", "None"]
+    ∧ Verif.Tables.c13FromFileDefaults = ["None", "None", "None"]
+    ∧ Verif.Tables.c13InitDefaults = ["None", "None", "None", "None"] := by
+  refine ⟨?_, ?_, ?_, ?_, ?_, ?_, ?_, ?_, ?_, ?_, ?_, ?_, ?_, ?_, ?_, ?_, ?_, ?_, ?_, ?_, ?_, ?_, ?_, ?_, ?_, ?_, ?_⟩ <;> rfl
 
 end Verif.C13
